@@ -1,4 +1,8 @@
-"""C13 - file keys and volume ids are never handed out twice (KeyAlloc.tla, SequencerImpl.tla)."""
+"""C13 - file keys and volume ids are never handed out twice (KeyAlloc.tla, SequencerImpl.tla).
+
+The memory and snowflake executions run twice: on the bare sequencer objects and (reset line "via": "master") inside REAL
+master servers (weed/server MasterServer: heartbeats through SendHeartbeat over in-memory streams, assignments through Assign,
+harness/cluster/realmaster.go); same events, same judge."""
 import json
 import os
 import random
@@ -29,7 +33,7 @@ def bconf(**kw):
                 Counts=counts((1, 0), (2, 0)), Steps=MODEL_STEPS,
                 Pre=vf.Raw("{" + ", ".join('<<"%s", %d>>' % p for p in MODEL_PRE) + "}"),
                 SetMaxShape="fixed", CasRetry=True, RefillCas=True, Split=False, KFm=set(), MaxTicks=2, WithVids=False,
-                Fresh={True, False}, GDepth=0)
+                Fresh={True, False}, GDepth=0, MSplit=False, HbOrder="setmax-first")
     base.update(kw)
     return base
 
@@ -168,6 +172,38 @@ def random_vids(rng, length):
     return ex
 
 
+def via_master(ex):
+    """the same script against real master servers (memory / snowflake sequencer inside weed/server), or None"""
+    if ex[0].get("kind") not in ("memory", "snowflake") or ex[0].get("via"):
+        return None
+    return [dict(ex[0], via="master")] + [dict(op) for op in ex[1:]]
+
+
+def gated_master(rng):
+    """G4 (real masters only): a heartbeat whose handler is parked at the entry of Sequence.SetMax, an assignment for
+    the same volume issued meanwhile, release; the volume holds keys no sequencer object of the execution handed out"""
+    masters = MASTERS if rng.random() < 0.5 else ["m1"]
+    vol, other = rng.sample(VOLS, 2)
+    pre = {vol: sorted(set([1] + rng.sample([2, 3, 7, 40, 499, 500, 501, 1200], rng.randint(1, 3))))}
+    if rng.random() < 0.3:
+        pre[vol] = pre[vol][1:]                 # key 1 itself is free: only a larger count runs into a key in use
+    ex = [dict(reset_line("memory", masters, pre), via="master")]
+    m = rng.choice(masters)
+    if rng.random() < 0.6:
+        # another volume server is known to the master: the assignment waits for a writable volume instead of being refused
+        ex.append({"ev": "hb", "m": m, "vol": other})
+        if rng.random() < 0.5:
+            ex.append({"ev": "next", "m": m, "vol": other, "n": n_of((1, 0))})
+    if len(masters) > 1 and rng.random() < 0.4:
+        ex.append({"ev": "leader", "m": m, "fresh": rng.random() < 0.5})
+    c = rng.choice([(1, 0), (2, 0), (3, 0), (7, 0), (0, 1)])
+    ex.append({"ev": "call", "p": 1, "op": "hb", "m": m, "vol": vol, "n": n_of((0, 0)), "v": 0, "gate": True})
+    ex.append({"ev": "call", "p": 2, "op": "next", "m": m, "vol": vol, "n": n_of(c), "v": 0, "gate": False, "bg": True})
+    ex.append({"ev": "release", "p": 1, "again": False})
+    ex.append({"ev": "next", "m": m, "vol": vol, "n": n_of((1, 0))})
+    return ex
+
+
 def write_script(path, execs):
     with open(path, "w") as f:
         for ex in execs:
@@ -212,9 +248,9 @@ def run(ctx):
     def mc(name, spec, cfg, consts, **kw):
         jobs.append(("mc", ctx.instance(name, spec, cfg, consts), kw))
 
-    def gen(name, consts, kind, masters=MASTERS, pre=None):
+    def gen(name, consts, kind, masters=MASTERS, pre=None, via=None):
         jobs.append(("gen", ctx.instance(name, "SequencerImpl", "SequencerImpl_gen.cfg", consts),
-                     dict(kind=kind, masters=masters, pre=pre)))
+                     dict(kind=kind, masters=masters, pre=pre, via=via)))
 
     mc("MC_KeyAlloc", "KeyAlloc", "KeyAlloc_mc.cfg",
        dict(Masters=set(MASTERS), Vols=set(VOLS), MaxKey=3, MaxOps=4 if th else 3), label="layer A")
@@ -229,6 +265,8 @@ def run(ctx):
        label="snowflake, counts 1 and 2, finding admitted")
     mc("MC_B_vids", "SequencerImpl", "SequencerImpl_mc.cfg",
        bconf(WithVids=True, Vols={"v1"}, Counts=counts((1, 0)), KFm={KF_MEM}, MaxOps=D), label="volume ids through raft")
+    mc("MC_B_mhb", "SequencerImpl", "SequencerImpl_mc.cfg", bconf(MSplit=True, KFm={KF_MEM}, MaxOps=D),
+       label="memory sequencer inside the master: heartbeat handler parked at SetMax, assignments served meanwhile (order of the code)")
     if th:
         mc("MC_B_etcd_in", "SequencerImpl", "SequencerImpl_mc.cfg",
            bconf(Kind="etcd", Split=True, MaxOps=D, Pre=pre_lit(MODEL_PRE_IN)),
@@ -248,6 +286,10 @@ def run(ctx):
     gen("G_etcd_blind", bconf(Kind="etcd", RefillCas=False, Split=True, GDepth=0, MaxOps=7 if th else 6, Vols={"v1"},
                               Counts=counts((1, 0), (0, 1)) if th else counts((1, 0)), Pre=pre_lit([]), Fresh={False}),
         "etcd", pre=[])
+    # a heartbeat handler that registers the volumes before it tells the sequencer their largest key: every schedule
+    # on which an assignment served in between re-issues a key in use (replayed on real masters with the gated sequencer)
+    gen("G_mhb_late", bconf(MSplit=True, HbOrder="register-first", GDepth=0, MaxOps=6 if th else 5, Fresh={False},
+                            Masters=set(MASTERS) if th else {"m1"}), "memory", MASTERS if th else ["m1"], via="master")
     gen("G_snow", bconf(Kind="snowflake", GDepth=g, MaxOps=D - 1, Counts=counts((1, 0), (3, 0))), "snowflake")
     gen("G_vids", bconf(WithVids=True, Vols={"v1"}, Counts=counts((1, 0)), GDepth=4 if th else 3, MaxOps=4 if th else 3), "memory")
     if th:
@@ -263,21 +305,28 @@ def run(ctx):
     with ThreadPoolExecutor(max_workers=4) as pool:
         results = list(pool.map(do, jobs))
     execs = []
+    mgated = []         # schedules that only make sense on real masters (a parked heartbeat handler)
     model_cex = {}
     for job, res in zip(jobs, results):
         if job[0] != "gen":
             continue
         name = os.path.basename(job[1][0])[:-4]
         for h in res:
-            execs.append(hist_to_exec(job[2]["kind"], h, job[2]["masters"], job[2]["pre"]))
+            ex = hist_to_exec(job[2]["kind"], h, job[2]["masters"], job[2]["pre"])
+            if job[2]["via"]:
+                mgated.append([dict(ex[0], via=job[2]["via"])] + ex[1:])
+            else:
+                execs.append(ex)
         model_cex[name] = len(res)
     ctx.notes["model_generated_schedules"] = model_cex
+    n_model = len(execs)
     # regression: the minimal failing execution of every finding of this property, open or fixed
     for f in vf.load_known_findings():
         if f["property"] == "C13":
             execs.append([dict(e) for e in f["minimal"]])
     # the model must still reproduce the suspects without the findings (documents what the generators are for)
     for name, consts, inv in [
+            ("X_mhb_late", bconf(MSplit=True, HbOrder="register-first", Masters={"m1"}, Fresh={False}, MaxOps=D), "NoReuse"),
             ("X_mem2", bconf(MaxOps=D), "NoReuse"),
             ("X_etcd_old", bconf(Kind="etcd", SetMaxShape="old", MaxOps=D), "NoReuse"),
             ("X_snow", bconf(Kind="snowflake", MaxOps=D), "NoReuse")] if th else []:
@@ -297,13 +346,28 @@ def run(ctx):
     for _ in range(nseq):
         execs.append(random_vids(rng, rng.randint(4, 14)))
 
+    # ---- 4. the memory / snowflake executions once more inside real master servers (SendHeartbeat, Assign)
+    #         every regression execution and random history, the model-generated schedules sampled to a cap
+    mmodel = [m for m in map(via_master, execs[:n_model]) if m]
+    cap = 2000 if th else 250
+    if len(mmodel) > cap:
+        mmodel = rng.sample(mmodel, cap)
+    mseq = mmodel + [m for m in map(via_master, execs[n_model:]) if m]
+    gcap = 400 if th else 40
+    mseq += (rng.sample(mgated, gcap) if len(mgated) > gcap else mgated) + [gated_master(rng) for _ in range(150 if th else 25)]
+    mstorm = [m for m in map(via_master, storms) if m]
+    ctx.notes["real_master_executions"] = {"sequential": len(mseq), "storms": len(mstorm)}
+
     binp = ctx.build("c13")
     s1 = os.path.join(ctx.out, "script-seq.ndjson")
     write_script(s1, execs)
     s2 = os.path.join(ctx.out, "script-storm.ndjson")
     write_script(s2, storms)
+    s3 = os.path.join(ctx.out, "script-master.ndjson")
+    write_script(s3, mseq + mstorm)
     traces = [ctx.drive(binp, ["--script", s1], name="trace-seq"),
-              ctx.drive(binp, ["--script", s2], name="trace-storm")]
+              ctx.drive(binp, ["--script", s2], name="trace-storm"),
+              ctx.drive(binp, ["--script", s3], name="trace-master")]
     if th:
         racebin = ctx.build("c13", race=True)
         traces.append(ctx.drive(racebin, ["--script", s2, "--mode", "race"], name="trace-race", timeout=1500))
@@ -318,12 +382,18 @@ def run(ctx):
                 "values, leader changes with and without a fresh object; (c) goroutine storms (2-4 goroutines x 2-5 "
                 "calls) on one memory sequencer / two etcd sequencers over one register / snowflake, logged as "
                 "call/ret; (d) NextVolumeId / volume registration / leader change histories; thorough: the storms "
-                "again under the race detector. non-trivial = at least two assignments; distinct by hash of the "
+                "again under the race detector; (e) the memory and snowflake executions of (a)-(d) once more inside real master "
+                "servers (one weed/server MasterServer per master name; heartbeat = full heartbeat through SendHeartbeat on an "
+                "in-memory stream, assignment = Assign, leader change = all streams break / a new MasterServer), sampled to a cap, "
+                "plus schedules with a heartbeat handler parked at the entry of Sequence.SetMax (gate around the master's sequencer) and "
+                "an assignment for the same volume issued meanwhile: every such schedule on which a register-before-SetMax model re-issues "
+                "a key, and seeded random ones with keys in the volume that no sequencer object handed out. non-trivial = at least two assignments; distinct by hash of the "
                 "recorded execution" % g)
     ctx.exhaustive = True
     ctx.assumptions += [
         "the etcd cluster is an in-memory client.KeysAPI with atomic Get/Set(PrevValue)/Create; its failure modes (timeouts, lost responses) are not explored",
         "raft is a stub whose Do applies the MaxVolumeIdCommand on every master's topology (a committed command); NextVolumeId is called serially (VolumeGrowth.accessLock in the system)",
+        "real master servers: public constructor, raft replaced by a stand-in that is always leader and applies a command on every master, no listener; one volume server and one collection per volume; the volume server of a volume reports exactly that volume's largest key",
         "a heartbeat is SetMax(largest key in use in that volume) followed by registration; the master assigns only for volumes registered with it (the enabling rule of the system)",
         "snowflake ids (~2^60) are recorded through an order preserving map that caps gaps at 2^20; overlap and equality of ranges shorter than 2^20 are preserved exactly",
         "real time: 'tick' sleeps 2 ms; whether two snowflake calls share a millisecond is observed, not controlled",
